@@ -308,3 +308,45 @@ def strip_versions(k):
     if isinstance(k, frozenset):
         return frozenset(strip_versions(x) for x in k)
     return k
+
+
+def same_mod_ver(a, b) -> bool:
+    return strip_versions(key_of(a)) == strip_versions(key_of(b))
+
+
+def result_of(p: Path, call_ev: Event):
+    """Value produced by a call event (for inlined calls: the value of the matching exit event)."""
+    if not call_ev.d.get('inlined'):
+        return call_ev.d.get('result')
+    seen = False
+    for e in p.events:
+        if e is call_ev:
+            seen = True
+            continue
+        if seen and e.kind == 'exit' and e.node is call_ev.node and e.depth == call_ev.depth and \
+                e.d.get('callee') is call_ev.d.get('callee'):
+            return e.d.get('value')
+    return None
+
+
+def lits_mod_ver(lits):
+    out = []
+    for l in lits:
+        if l.kind == 'cmp':
+            out.append(Lit('cmp', op=l.op, rf=rf_from_key(strip_versions(key_of(l.rf)))
+                           if l.rf.single_atom() is not None else strip_rf(l.rf)))
+        else:
+            out.append(Lit(l.kind, key=strip_versions(l.key), pol=l.pol, text=l.text))
+    return out
+
+
+def strip_rf(rf: RF) -> RF:
+    def poly(p) -> RF:
+        tot = RF.const(0)
+        for m, c in p.items():
+            t = RF.const(c)
+            for a, e in m:
+                t = t * RF.atom(strip_versions(a)).ipow(e)
+            tot = tot + t
+        return tot
+    return poly(rf.num) / poly(rf.den)
